@@ -180,7 +180,8 @@ func c19Scenario(c *wk.Ctx, idx int64, r *rand.Rand) (nontrivial string, viol bo
 	})
 	rx := newRx()
 	// start the pings one after the other so that an injected send error hits the intended one
-	for _, p := range pings {
+	slowFail := false
+	for i, p := range pings {
 		p := p
 		stale := c19LastID >= 0 && r.Intn(4) == 0
 		if stale {
@@ -191,6 +192,13 @@ func c19Scenario(c *wk.Ctx, idx int64, r *rand.Rand) (nontrivial string, viol bo
 		}
 		if p.sendErr {
 			rec.FailNext(1, mon.ErrInjected)
+			rec.FailSlowly(0)
+			if i%2 == 1 {
+				// the write takes a millisecond before it fails (a driver timing out): the pings started meanwhile take their
+				// identifiers while this one is still inside its write
+				rec.FailSlowly(time.Millisecond)
+				slowFail = true
+			}
 		}
 		rec.AfterWrite(nil)
 		if p.matchAt == 0 {
@@ -248,10 +256,31 @@ func c19Scenario(c *wk.Ctx, idx int64, r *rand.Rand) (nontrivial string, viol bo
 	}
 	rec.OnWrite(nil)
 	rec.AfterWrite(nil)
+	if slowFail {
+		// two more pings, started after the slow failure has been reported, while the others are still pending: their identifiers
+		// must be fresh ones (they are not answered and not judged otherwise)
+		time.Sleep(3 * time.Millisecond)
+		synctest.Wait()
+		for k := 0; k < 2; k++ {
+			k, v6 := k, r.Intn(2) == 0
+			wg.Add(1)
+			go func() {
+				defer wg.Done()
+				if v6 {
+					s.Ping6(packet.Addr{MAC: nic.HostMAC, IP: nic.HostLLA}, packet.Addr{MAC: hw(refdec.MAC{0x02, 0xd0, 0, 0, 0xee, byte(k)}), IP: netip.AddrFrom16([16]byte{0xfe, 0x80, 14: 0xee, 15: byte(k)})}, 200*time.Millisecond)
+				} else {
+					s.Ping(packet.Addr{MAC: hw(refdec.MAC{0x02, 0xd0, 0, 0, 0xee, byte(k)}), IP: netip.AddrFrom4([4]byte{192, 168, 0, byte(250 + k)})}, 200*time.Millisecond)
+				}
+			}()
+			synctest.Wait()
+		}
+		c.Obs("late_pings_after_slow_send_failure", 2)
+	}
 	c.Obs("replies_inside_write", int64(immediate))
 	c.Obs("duplicate_replies_inside_write", int64(dupInside))
 	// identifiers from the echo requests on the wire, matched by destination
 	ids := map[uint16]int{}
+	onWire := map[uint16]int{}
 	for _, f := range rec.Take() {
 		d := refdec.Decode(f.Data)
 		if d.Err || (d.PayloadID != refdec.PICMP4 && d.PayloadID != refdec.PICMP6) {
@@ -262,6 +291,9 @@ func c19Scenario(c *wk.Ctx, idx int64, r *rand.Rand) (nontrivial string, viol bo
 			off = d.OffIP6 + 40
 		}
 		icmp := f.Data[off:]
+		if icmp[0] == 8 || icmp[0] == 128 {
+			onWire[uint16(icmp[4])<<8|uint16(icmp[5])]++
+		}
 		for _, p := range pings {
 			if p.dst == d.DstIP && (icmp[0] == 8 || icmp[0] == 128) {
 				p.id, p.have = uint16(icmp[4])<<8|uint16(icmp[5]), true
@@ -280,6 +312,11 @@ func c19Scenario(c *wk.Ctx, idx int64, r *rand.Rand) (nontrivial string, viol bo
 	for id, cnt := range ids {
 		if cnt > 1 {
 			fail("ping:duplicate-identifier", fmt.Sprintf("identifier %d used by %d concurrent pings", id, cnt))
+		}
+	}
+	for id, cnt := range onWire {
+		if cnt > 1 { // every echo request of the scenario left within a few milliseconds, while the answered ones were all pending
+			fail("ping:duplicate-identifier", fmt.Sprintf("identifier %d is on the wire in %d echo requests of concurrently pending pings", id, cnt))
 		}
 	}
 	// arrival schedule
